@@ -440,6 +440,34 @@ void h_overflow_detect(void) {
 }
 #endif
 
+#if defined(HARNESS_h_overflow_detect_mt) && MI_PADDING
+/* C17: the overflow check also runs when the block is freed by another thread (before the padding is shrunk for the
+   delayed-free link) */
+static int n_delayed_mt;
+void stub_free_block_delayed_mt(mi_page_t* page, mi_block_t* block) { CHECK(page == &PG, "this page"); n_delayed_mt++; }
+long _mi_option_get_fast(mi_option_t o) { return 0; }
+void h_overflow_detect_mt(void) {
+  make_page(false, NBLK);
+  size_t k = nd_size(); ASSUME(k < NBLK && st[k] == LIVE);
+  PG.flags.x.has_aligned = 0;
+  SEGO.seg.thread_id = verif_tid_value + 1;          /* the block belongs to another thread: cross-thread free */
+  size_t req = nd_size(); ASSUME(req < BS - MI_PADDING_SIZE);
+  pad_live(k, req);
+  size_t delta = (BS - MI_PADDING_SIZE) - req;
+  bool tamper = nd_bool();
+  if (tamper) {
+    size_t off = nd_size(); ASSUME(off < (delta > MI_MAX_ALIGN_SIZE ? MI_MAX_ALIGN_SIZE : delta));
+    uint8_t v = nd_u8(); ASSUME(v != MI_DEBUG_PADDING);
+    ((uint8_t*)blk(k))[req + off] = v;
+  }
+  mi_free(blk(k));
+  bool saw_efault = false; for (int i = 0; i < n_err && i < 4; i++) if (errs[i] == EFAULT) saw_efault = true;
+  CHECK(n_delayed_mt == 1, "the block is handed to the owner's lists exactly once");
+  if (tamper) { CHECK(saw_efault, "C17: an overflow past the requested size is reported (EFAULT) also when another thread frees the block"); WITNESS("tampered"); }
+  else { CHECK(n_err == 0, "an intact block raises no error"); WITNESS("intact"); }
+}
+#endif
+
 #if defined(HARNESS_h_corrupt_link) && defined(MI_ENCODE_FREELIST)
 /* C17: an overwritten free-list link is reported (EFAULT) and cut when reached, unless it decodes to NULL or into the page */
 void h_corrupt_link(void) {
